@@ -649,6 +649,20 @@ func (e *Exec) allocRef(prefix string) string {
 		e.freshRefs = map[string]bool{}
 	}
 	e.freshRefs[r] = true
+	// the next object: no gap, so that "allocated by this function" covers whole intervals of the counter
+	e.addFact(mkAnd(mkEq(r, mkAdd(e.st.alloc, "1")), sx(">", r, "0"), mkEq(sx("root", r), r), mkNot(sx("foreign", r)), mkNot(sx("foreignx", r))))
+	e.st.alloc = r
+	return r
+}
+
+// allocForeign: an object allocated by code we do not execute (a callee used through its contract, an external
+// function): it is new, but its cells are NOT known to be zero - they hold whatever the callee put there.
+func (e *Exec) allocForeign(prefix string) string {
+	r := e.fresh(prefix, SInt)
+	if e.freshRefs == nil {
+		e.freshRefs = map[string]bool{}
+	}
+	e.freshRefs[r] = true
 	e.addFact(mkAnd(sx(">", r, e.st.alloc), sx(">", r, "0"), mkEq(sx("root", r), r)))
 	e.st.alloc = r
 	return r
@@ -686,7 +700,14 @@ func (e *Exec) heapGet(key, sort string) string {
 			if sort == SArrB {
 				zero = "false"
 			}
-			e.decls = append(e.decls, fmt.Sprintf("(assert (forall ((r!z Int)) (! (=> (> (root r!z) alloc0) (= (select %s r!z) %s)) :pattern ((select %s r!z)))))", init, zero, init))
+			// Objects allocated by go-libp2p callees used through contracts are 'foreign': all their cells are arbitrary.
+			// Objects allocated by code outside the module ('foreignx') cannot hold go-libp2p struct fields other than
+			// zero, but their generic cells (slice/map contents, fields of non-module types) are arbitrary.
+			cond := "(not (foreign (root r!z)))"
+			if !isModuleFieldKey(key) {
+				cond = "(and (not (foreign (root r!z))) (not (foreignx (root r!z))))"
+			}
+			e.decls = append(e.decls, fmt.Sprintf("(assert (forall ((r!z Int)) (! (=> (and (> (root r!z) alloc0) %s) (= (select %s r!z) %s)) :pattern ((select %s r!z)))))", cond, init, zero, init))
 		}
 	}
 	return init
@@ -1327,6 +1348,22 @@ var shortPkgs = map[string]string{}
 var shortPkgsRev = map[string]string{}
 
 // shortPkg gives a package path a short unique name (last element, disambiguated if needed).
+// isModuleFieldKey: the heap key is a field of a struct type declared in go-libp2p itself.
+func isModuleFieldKey(key string) bool {
+	if strings.ContainsAny(key, "#:") {
+		return false
+	}
+	i := strings.Index(key, ".")
+	if i < 0 {
+		return false
+	}
+	if key[:i] == "anon" {
+		return true // anonymous struct types occur only inside the module's own declarations
+	}
+	p, ok := shortPkgsRev[key[:i]]
+	return ok && strings.HasPrefix(p, modPath)
+}
+
 func shortPkg(path string) string {
 	if s, ok := shortPkgs[path]; ok {
 		return s
